@@ -293,6 +293,10 @@ pub struct SimSource<'a> {
     limit: usize,
     err_at: Option<usize>,
     last_was_eintr: bool,
+    /// deterministic step budget: after this many calls every read fails (a decoder that keeps
+    /// going is hanging)
+    pub call_budget: u64,
+    pub budget_exceeded: bool,
 }
 
 impl<'a> SimSource<'a> {
@@ -324,6 +328,8 @@ impl<'a> SimSource<'a> {
             limit,
             err_at,
             last_was_eintr: false,
+            call_budget: u64::MAX,
+            budget_exceeded: false,
         }
     }
 }
@@ -333,6 +339,10 @@ impl Read for SimSource<'_> {
         let idx = self.calls;
         self.calls += 1;
         self.max_requested = self.max_requested.max(buf.len());
+        if self.calls > self.call_budget {
+            self.budget_exceeded = true;
+            return Err(io::Error::other("sim: step budget exceeded"));
+        }
         if buf.is_empty() {
             return Ok(0);
         }
